@@ -152,6 +152,15 @@ theorem chan_mu3 (n m a1 b1 : Rat) (hn : n = 0 → a1 = 0) (hm : m ≠ 0) :
   · subst h1; simp [hn rfl, hm]
   · field_simp
 
+/-- the mean moved by the weighted difference (the repaired `CovarianceCounter.merge`) -/
+theorem chan_mu_delta (n m a1 b1 : Rat) (hn : 0 < n) (hm : 0 < m) :
+    a1 / n - (a1 / n - b1 / m) * (m / (n + m)) = (a1 + b1) / (n + m) := by
+  have h1 : n ≠ 0 := ne_of_gt hn
+  have h2 : m ≠ 0 := ne_of_gt hm
+  have h3 : n + m ≠ 0 := ne_of_gt (by linarith)
+  field_simp
+  ring
+
 /-- Chan co-moment update in the model's `StatCounter` shape -/
 theorem chan_m2 (n m a1 a2 b1 b2 : Rat) (hn : 0 < n) (hm : 0 < m) :
     (a2 - a1 * a1 / n) + ((b2 - b1 * b1 / m)
